@@ -107,6 +107,47 @@ def table_rule(chk, prog):
         chk.error("TABLE.header: get_properties no longer matches the recognised header-reading idiom")
 
 
+def _loop_names(f):
+    """(degree var, order var) as named in f: the n/m harmonic loop variables, or the names unpacked from row[:2] in the loader"""
+    for n in ast.walk(f.node):
+        if isinstance(n, ast.Assign) and isinstance(n.targets[0], ast.Tuple) and len(n.targets[0].elts) == 2 and isinstance(n.value, (ast.Call, ast.Subscript)) \
+                and "row[:2]" in ast.unparse(n.value):
+            return n.targets[0].elts[0].id, n.targets[0].elts[1].id
+    for n in ast.walk(f.node):
+        if isinstance(n, ast.For) and isinstance(n.target, ast.Name):
+            for m in ast.walk(n):
+                if m is not n and isinstance(m, ast.For) and isinstance(m.target, ast.Name) and n.target.id in ast.unparse(m.iter):
+                    return n.target.id, m.target.id
+    return "n", "m"
+
+
+class _Ren(ast.NodeTransformer):
+    def __init__(self, mp):
+        self.mp = mp
+
+    def visit_Name(self, node):
+        return ast.copy_location(ast.Name(id=self.mp.get(node.id, node.id), ctx=node.ctx), node)
+
+
+def _canon(f):
+    """function AST with the harmonic degree/order variables renamed to n / m"""
+    import copy
+    dn, dm = _loop_names(f)
+    tree = copy.deepcopy(f.node)
+    if (dn, dm) != ("n", "m"):
+        tree = _Ren({dn: "n", dm: "m"}).visit(tree)
+
+    class _F:
+        pass
+    g = _F()
+    g.node, g.ref, g.qname, g.module = tree, f.ref, f.qname, f.module
+    body = tree.body
+    if body and isinstance(body[0], ast.Expr) and isinstance(getattr(body[0], "value", None), ast.Constant) and isinstance(body[0].value.value, str):
+        body = body[1:]
+    g.body = lambda: body
+    return g
+
+
 def _subs(f, names=("self.c", "self.cd")):
     """[(array, index text, is_store, enclosing-if tests, node)] for every subscript of the coefficient tables"""
     out = []
@@ -139,6 +180,7 @@ def index_rule(chk, prog):
     mf = prog.func(WMM + "::WMM.magnetic_field")
     for f in (load, den, mf):
         chk.touch(f)
+    load, den, mf = _canon(load), _canon(den), _canon(mf)       # loop-variable names are irrelevant
     G, H = "m,n", "n,m-1"
     # loader: n, m = row[:2]; columns
     lt = ast.unparse(load.node)
@@ -156,7 +198,7 @@ def index_rule(chk, prog):
             chk.record("INDEX.loader", site, "COF column %s stored at %s[%s]" % (col, key[0], key[1]), verdict="VIOLATION")
             chk.finding("INDEX.loader", WMM, "WMM.load_coefficients", "%s[%s] <- row[%s]" % (key[0], key[1], got[0] if got else None),
                         "the loader does not put COF column %s (%s) at %s[%s]" % (col, {"2": "g", "3": "h", "4": "g-dot", "5": "h-dot"}[col], key[0], key[1]), line=load.node.lineno)
-    if "n, m = row[:2]" not in lt:
+    if "n, m = row[:2]" not in lt:     # after canonical renaming: degree first, order second
         chk.finding("INDEX.loader", WMM, "WMM.load_coefficients", "degree/order unpacking", "the loader no longer reads (n, m) from the first two columns in that order", line=load.node.lineno)
     for key, (col, conds) in colmap.items():
         if key[1] == H and not any("m!=0" in c.replace(" ", "") or "m>0" in c.replace(" ", "") for c in conds):
@@ -179,14 +221,15 @@ def index_rule(chk, prog):
     # scaler multiplies both cells by S[m, n]
     for a, i, st, conds, s in _subs(den):
         if isinstance(s, ast.AugAssign) and isinstance(s.op, ast.Mult):
-            if ast.unparse(s.value).replace(" ", "") != "S[m,n]":
+            import re as _re
+            if not _re.fullmatch(r"[A-Za-z_]\w*\[\(?m,n\)?\]", ast.unparse(s.value).replace(" ", "")):
                 chk.finding("INDEX.scaler", WMM, "WMM.denormalize_coefficients", stmt_text(s), "coefficient scaled by %s instead of the Schmidt factor S[m, n]" % ast.unparse(s.value), line=s.lineno)
             chk.count("INDEX.scaler.mult")
 
 
 def bounds_rule(chk, prog):
     for ref in (WMM + "::WMM.denormalize_coefficients", WMM + "::WMM.magnetic_field"):
-        f = prog.func(ref)
+        f = _canon(prog.func(ref))
         found = False
         for n in ast.walk(f.node):
             if isinstance(n, ast.For) and isinstance(n.target, ast.Name) and n.target.id == "n":
